@@ -294,6 +294,18 @@ type FaultCase struct {
 	Sel int         `json:"sel"` // which of the fsyncs issued inside StoreLogs calls fails
 	// AimFirst: choose among the fsyncs (file, directory) of first commits into new segment files only
 	AimFirst bool `json:"aimFirst,omitempty"`
+	// Errno the failing fsync reports ("" = EIO)
+	Errno string `json:"errno,omitempty"`
+}
+
+// errnos an fsync may fail with: whatever the value, the bytes / the directory entry are not durable.
+var fsyncErrnos = []string{"EIO", "EIO", "ENOSPC", "EDQUOT", "EINVAL", "EOPNOTSUPP", "EROFS", "EBADF"}
+
+func (c FaultCase) errno() string {
+	if c.Errno == "" {
+		return "EIO"
+	}
+	return c.Errno
 }
 
 func straceRun(work string, w wl.Workload, inject string) ([]Sys, string, string, error) {
@@ -325,7 +337,7 @@ func TestC07Fault(t *testing.T) {
 		w := genWorkload(t)
 		w.Retry = true
 		w.RetryReopen = rapid.Bool().Draw(t, "retryReopen")
-		return FaultCase{W: w, Sel: rapid.IntRange(0, 1000).Draw(t, "sel"), AimFirst: rapid.Bool().Draw(t, "aimFirstCommit")}
+		return FaultCase{W: w, Sel: rapid.IntRange(0, 1000).Draw(t, "sel"), AimFirst: rapid.Bool().Draw(t, "aimFirstCommit"), Errno: rapid.SampledFrom(fsyncErrnos).Draw(t, "errno")}
 	}, func(c FaultCase) (res common.Result) {
 		work, err := os.MkdirTemp("", "verif-tracef-")
 		if err != nil {
@@ -356,7 +368,8 @@ func TestC07Fault(t *testing.T) {
 			k = st.FirstCommitFsyncs[c.Sel%len(st.FirstCommitFsyncs)]
 			res.Classes = append(res.Classes, "fault-on-first-commit-of-a-new-file")
 		}
-		calls, dir, stderr, err := straceRun(work, c.W, fmt.Sprintf("inject=fsync:error=EIO:when=%d", k))
+		calls, dir, stderr, err := straceRun(work, c.W, fmt.Sprintf("inject=fsync:error=%s:when=%d", c.errno(), k))
+		res.Classes = append(res.Classes, "fsync-errno:"+c.errno())
 		if err != nil {
 			// the workload could not complete even with the retry (e.g. the injected error hit a second thread): no verdict
 			res.Classes = []string{"fault-run-incomplete"}
@@ -377,7 +390,99 @@ func TestC07Fault(t *testing.T) {
 			res.Classes = append(res.Classes, "fault-not-inside-storelogs")
 		}
 		if v != nil {
-			res.Fail = common.Failf("after-fsync-fault/"+v.Sig, "with fsync #%d of the API thread failing once (EIO) and the failed StoreLogs retried: %s", k, v.Msg)
+			res.Fail = common.Failf("after-fsync-fault/"+v.Sig, "with fsync #%d of the API thread failing once (%s) and the failed StoreLogs retried: %s", k, c.errno(), v.Msg)
+		}
+		return
+	})
+}
+
+// ---- Filer level: segment.Filer over the production fs, driven directly. A Delete that reports
+// success must have unlinked the name and fsynced the directory since - also when it is the retry of
+// a Delete whose directory fsync had failed, or a second Delete of the same segment.
+
+type FilerCase struct {
+	W     wl.Workload `json:"w"`
+	Fault bool        `json:"fault"`
+	Sel   int         `json:"sel"`
+	Errno string      `json:"errno,omitempty"`
+}
+
+func genFilerCase(t *rapid.T) FilerCase {
+	w := wl.Workload{SegSize: rapid.SampledFrom([]int{512, 4096}).Draw(t, "seg")}
+	n := rapid.IntRange(2, 5).Draw(t, "nseg")
+	type seg struct{ id, base uint64 }
+	var segs []seg
+	for i := 0; i < n; i++ {
+		sg := seg{id: uint64(i + 1), base: uint64(1 + 10*i)}
+		segs = append(segs, sg)
+		w.Filer = append(w.Filer, wl.FilerOp{K: "create", ID: sg.id, Base: sg.base, N: rapid.IntRange(0, 3).Draw(t, "n")})
+	}
+	nd := rapid.IntRange(2, 8).Draw(t, "ndel")
+	for i := 0; i < nd; i++ {
+		sg := segs[rapid.IntRange(0, len(segs)-1).Draw(t, "which")]
+		switch rapid.IntRange(0, 9).Draw(t, "dk") {
+		case 0: // a segment that never existed
+			w.Filer = append(w.Filer, wl.FilerOp{K: "delete", ID: sg.id + 100, Base: sg.base})
+		case 1: // re-create (fails if it still exists) and go on
+			w.Filer = append(w.Filer, wl.FilerOp{K: "create", ID: sg.id, Base: sg.base, N: 1})
+		default:
+			w.Filer = append(w.Filer, wl.FilerOp{K: "delete", ID: sg.id, Base: sg.base})
+			if rapid.IntRange(0, 2).Draw(t, "again") > 0 {
+				w.Filer = append(w.Filer, wl.FilerOp{K: "delete", ID: sg.id, Base: sg.base})
+			}
+		}
+	}
+	return FilerCase{W: w, Fault: rapid.IntRange(0, 3).Draw(t, "fault") > 0, Sel: rapid.IntRange(0, 1000).Draw(t, "sel"), Errno: rapid.SampledFrom(fsyncErrnos).Draw(t, "errno")}
+}
+
+func TestC07Filer(t *testing.T) {
+	common.Run(t, "C07", "C07Filer", genFilerCase, func(c FilerCase) (res common.Result) {
+		work, err := os.MkdirTemp("", "verif-tracefiler-")
+		if err != nil {
+			res.Fail = common.Failf("harness", "%v", err)
+			return
+		}
+		defer os.RemoveAll(work)
+		var calls []Sys
+		var dir string
+		for attempt := 0; attempt < 3; attempt++ {
+			var stderr string
+			calls, dir, stderr, err = straceRun(work, c.W, "")
+			if err == nil && len(calls) > 4 {
+				break
+			}
+			if attempt == 2 {
+				common.Inconclusive("dry traced filer run failed: %v %s", err, stderr)
+			}
+		}
+		v, st := Check(calls, dir, c.W.SegSize)
+		if v != nil {
+			res.Fail = common.Failf("filer/"+v.Sig, "%s", v.Msg)
+			return
+		}
+		res.NonTrivial = st.FilerDeleteOK > 0
+		res.Classes = append(res.Classes, "filer-delete")
+		if !c.Fault || len(st.FsyncInFilerDelete) == 0 {
+			return
+		}
+		k := st.FsyncInFilerDelete[c.Sel%len(st.FsyncInFilerDelete)]
+		errno := c.Errno
+		if errno == "" {
+			errno = "EIO"
+		}
+		calls, dir, stderr, err := straceRun(work, c.W, fmt.Sprintf("inject=fsync:error=%s:when=%d", errno, k))
+		if err != nil {
+			res.Classes = append(res.Classes, "fault-run-incomplete")
+			res.Note = stderr
+			return
+		}
+		v, st = Check(calls, dir, c.W.SegSize)
+		res.Classes = append(res.Classes, "filer-delete-dirsync-failed", "fsync-errno:"+errno)
+		if st.FilerDeleteOKAfterFailure > 0 {
+			res.Classes = append(res.Classes, "filer-delete-retried-after-failure")
+		}
+		if v != nil {
+			res.Fail = common.Failf("filer-after-fault/"+v.Sig, "with fsync #%d of the API thread (the directory fsync of a Filer.Delete) failing once (%s): %s", k, errno, v.Msg)
 		}
 		return
 	})
